@@ -76,9 +76,10 @@ def _real_class(name):
 
 def generate(rng, tier):
     no_color = rng.random() < 0.1
-    n_syn = rng.randint(1, 4)
-    usr = [f"USR.{c}" for c in "ABCDEF"][: rng.randint(2, 6)]
-    real_used = rng.sample(sorted(REAL), rng.randint(1, 4))
+    big = tier != "quick"
+    n_syn = rng.randint(1, 6 if big else 4)
+    usr = [f"USR.{c}" for c in "ABCDEFGHIJ"][: rng.randint(2, 10 if big else 6)]
+    real_used = rng.sample(sorted(REAL), rng.randint(1, 7 if big else 4))
     comps = []
     syn_ids = []
     for i in range(n_syn):
